@@ -556,13 +556,20 @@ class PhysicalityCheckOfARun(E2Contract):
         import math
         est, para, flags = cfg
         vals = {}
-        # estimates around the boundary of the physical set, some slightly outside, so that both verdicts occur
-        for n in names:
-            vals[n] = rng.choice([0.0, 0.3, 0.70710678, 0.7071, 0.72, -0.5])
-        if not para:
-            for n in names:
-                if n.endswith("_0"):
-                    vals[n] = rng.choice([1 / math.sqrt(2), 1 / math.sqrt(2) + 1e-7, 0.70715])
+        # estimates around the boundary of the physical set: Bloch radius 1/sqrt(2) +- delta with delta log-uniform in [1e-12, 1e-3] (minimum
+        # eigenvalue about -+delta/sqrt(2): between, below and above the two documented thresholds), trace off by 0 / 1e-9 / 1e-4 with the flag off
+        groups = sorted({n.rsplit("_", 1)[0] for n in names})
+        for g in groups:
+            comps = sorted(n for n in names if n.rsplit("_", 1)[0] == g)
+            bloch = comps if para else comps[1:]
+            d = [rng.gauss(0, 1) for _ in bloch]
+            nd = math.sqrt(sum(x * x for x in d)) or 1.0
+            delta = rng.choice([-1, 1, 1]) * 10 ** rng.uniform(-12, -3)
+            radius = rng.choice([1 / math.sqrt(2) + delta, 1 / math.sqrt(2) + delta, 0.3, 0.0])
+            for n, x in zip(bloch, d):
+                vals[n] = radius * x / nd
+            if not para:
+                vals[comps[0]] = 1 / math.sqrt(2) + rng.choice([0.0, 0.0, 1e-9, 1e-4])
         return vals
 
     def run(self, W, cfg, inp):
@@ -620,3 +627,130 @@ class PhysicalityCheckOfARun(E2Contract):
                    "the check returns False exactly when some stored estimate (any repetition, any sample size) violates a constraint this estimator configuration enforces"),
                 eq("documented-thresholds", out["thresholds"], [atol if para else 1e-5, 1e-5],
                    "equality threshold: the global atol with the constraint built in, 1e-5 otherwise; inequality threshold 1e-5")]
+
+
+def _assume_physical(self, atol_eq_const=None, atol_ineq_const=None):
+    return True
+
+
+class DepolarizedTesters(E2Contract):
+    """tester_typical.generate_tester_states_depolarized / generate_tester_povms_depolarized with one rate PER TESTER (symbolic rates in [0,1]) and
+    with a common rate: tester k is the catalogued object mixed with the maximally mixed one in proportion rate[k]"""
+    name = "depolarized testers"
+    prop = "C15"
+    targets = ("quara.objects.tester_typical:generate_tester_states_depolarized", "quara.objects.tester_typical:generate_tester_povms_depolarized")
+    n_conformance = 1
+    max_paths = 16
+    frame = False
+
+    def __init__(self):
+        # physicality of a convex mixture of two physical objects is mathematics, not what this contract is about: the constructors' physicality
+        # checks of the depolarised objects (eigenvalue comparisons in the symbolic rates: 2^18 paths) are assumed to pass
+        self.stubs = {"quara.objects.gate:Gate.is_cp": _dep_is_cp_stub(), "quara.objects.qoperation:QOperation.is_physical": _assume_physical}
+
+    def configs(self, tier):
+        return [("1q", "list"), ("1q", "common")] + ([("1qt", "list")] if tier == "thorough" else [])
+
+    NAMES = {"1q": (["x0", "y0", "z1"], ["x", "y", "z"]), "1qt": (["01z0", "12x1", "02y0"], ["01x3", "z3", "12y3"])}
+
+    def inputs(self, W, cfg, mk):
+        s, how = cfg
+        rs = [mk.real(f"rate_s{k}") for k in range(3)]
+        qs = [mk.real(f"rate_p{k}") for k in range(3)]
+        for x in rs + qs:
+            mk.require(x >= 0)
+            mk.require(x <= 1)
+        return dict(rs=rs, qs=qs)
+
+    def sample(self, cfg, names, rng):
+        return {n: rng.choice([0.0, 1.0, rng.uniform(0, 1), rng.uniform(0, 1)]) for n in names}
+
+    def run(self, W, cfg, inp):
+        s, how = cfg
+        c_sys = make_csys(W, s)
+        tt = W.mod("quara.objects.tester_typical")
+        snames, pnames = self.NAMES[s]
+        if how == "common":
+            st = tt.generate_tester_states_depolarized(c_sys, snames, 0.25)
+            pv = tt.generate_tester_povms_depolarized(c_sys, pnames, 0.125)
+        else:
+            st = tt.generate_tester_states_depolarized(c_sys, snames, list(inp["rs"]))
+            pv = tt.generate_tester_povms_depolarized(c_sys, pnames, list(inp["qs"]))
+        return dict(states=[x.vec for x in st], povms=[list(x.vecs) for x in pv])
+
+    def post(self, W, cfg, inp, out):
+        s, how = cfg
+        np = W.np
+        c_sys = make_csys(W, s)
+        n = DIMS[s] ** 2
+        snames, pnames = self.NAMES[s]
+        stt, pvt = W.mod("quara.objects.state_typical"), W.mod("quara.objects.povm_typical")
+        rs = [0.25] * 3 if how == "common" else inp["rs"]
+        qs = [0.125] * 3 if how == "common" else inp["qs"]
+        D = lambda p: np.diag(np.array([1] + [1 - p] * (n - 1)))
+        want_s = [D(rs[k]) @ stt.generate_state_from_name(c_sys, nm).vec for k, nm in enumerate(snames)]
+        want_p = [[D(qs[k]) @ v for v in pvt.generate_povm_from_name(nm, c_sys).vecs] for k, nm in enumerate(pnames)]
+        return [eq("tester-state[k]==mixture-at-rate[k]", out["states"], want_s, "tester state k == (1 - r_k) catalogued state + r_k I/d"),
+                eq("tester-povm[k]==mixture-at-rate[k]", out["povms"], want_p, "tester POVM k: every element E -> (1 - q_k) E + q_k Tr(E) I/d")]
+
+    def canary(self, W, cfg, inp, out):
+        return [eq("canary", out["states"][0][1:], 2 * out["states"][0][1:] + 1, "(false)")]
+
+
+class SimulationSettingCopy(E2Contract):
+    """StandardQTomographySimulationSetting.copy(): every field of the copy (the stored setting of every SimulationResult, from which runs are
+    re-estimated) equals the field of the original - with pairwise different values in all scalar fields, so that no two can be exchanged"""
+    name = "StandardQTomographySimulationSetting.copy"
+    prop = "C15"
+    targets = (SIM + ":StandardQTomographySimulationSetting.copy", SIM + ":StandardQTomographySimulationSetting.__init__")
+    frame = False
+    n_conformance = 1
+    max_paths = 4
+
+    def configs(self, tier):
+        return ["linear", "loss-minimisation"]
+
+    def inputs(self, W, cfg, mk):
+        e1, e2 = mk.real("eps_proj"), mk.real("eps_imag")
+        for e in (e1, e2):
+            mk.require(e > 0)
+            mk.require(e <= 1e-2)
+        return dict(e1=e1, e2=e2)
+
+    def sample(self, cfg, names, rng):
+        return {"eps_proj": 10 ** rng.uniform(-14, -3), "eps_imag": 10 ** rng.uniform(-14, -3)}
+
+    def run(self, W, cfg, inp):
+        std = "quara.protocol.qtomography.standard."
+        c_sys, states, povms = exact_testers(W, "1q", False)
+        sim = W.mod(SIM)
+        kw = {}
+        if cfg == "linear":
+            estimator = W.mod(std + "linear_estimator").LinearEstimator()
+        else:
+            estimator = W.mod(std + "loss_minimization_estimator").LossMinimizationEstimator()
+            lm = W.mod("quara.loss_function.standard_qtomography_based_weighted_probability_based_squared_error")
+            pg = W.mod("quara.minimization_algorithm.projected_gradient_descent_backtracking")
+            kw = dict(loss=lm.StandardQTomographyBasedWeightedProbabilityBasedSquaredError(),
+                      loss_option=lm.StandardQTomographyBasedWeightedProbabilityBasedSquaredErrorOption("identity"),
+                      algo=pg.ProjectedGradientDescentBacktracking(), algo_option=pg.ProjectedGradientDescentBacktrackingOption(mu=0.5, gamma=0.25))
+        s = sim.StandardQTomographySimulationSetting(name="case-A", true_object=states[1], tester_objects=list(povms), estimator=estimator, seed_data=77, n_rep=3,
+                                                     num_data=[10, 200], schedules=[[("state", 0), ("povm", 1)], [("state", 0), ("povm", 0)]],
+                                                     eps_proj_physical=inp["e1"], eps_truncate_imaginary_part=inp["e2"], **kw)
+        c = s.copy()
+        fields = lambda x: dict(name=x.name, seed_data=x.seed_data, n_rep=x.n_rep, num_data=list(x.num_data), schedules=[list(map(tuple, sch)) for sch in x.schedules],
+                                eps_proj_physical=x.eps_proj_physical, eps_truncate_imaginary_part=x.eps_truncate_imaginary_part,
+                                true_object=x.true_object.vec, testers=[list(t.vecs) for t in x.tester_objects], estimator=type(x.estimator).__name__,
+                                loss=type(x.loss).__name__, algo=type(x.algo).__name__,
+                                loss_option_mode=getattr(x.loss_option, "mode_weight", None),
+                                algo_option=[getattr(x.algo_option, "mu", None), getattr(x.algo_option, "gamma", None)])
+        return dict(orig=fields(s), copy=fields(c))
+
+    def post(self, W, cfg, inp, out):
+        cl = [eq(f"copy.{k}==original.{k}", out["copy"][k], out["orig"][k], f"field {k} of the copy equals the original's") for k in sorted(out["orig"])]
+        cl.append(eq("original-keeps-its-thresholds", [out["orig"]["eps_proj_physical"], out["orig"]["eps_truncate_imaginary_part"]], [inp["e1"], inp["e2"]],
+                     "the setting stores the two thresholds it was given, each in its own field"))
+        return cl
+
+    def canary(self, W, cfg, inp, out):
+        return [eq("canary", out["copy"]["eps_proj_physical"], 2 * out["orig"]["eps_proj_physical"] + 1, "(false) the copy doubles the projection threshold and adds one")]
